@@ -460,3 +460,32 @@ Proof.
   - repeat constructor; unfold Qle; cbn; lia.
   - vm_compute. reflexivity.
 Qed.
+
+(* ------------------------------------------------------------------ the GCC series never decreases (no side conditions) *)
+Lemma occupy_bond_gcc s e : (gcc s <= gcc (occupy_bond s e))%Z.
+Proof.
+  destruct e as [n0 m0]. unfold occupy_bond. destruct (root (comp s) n0) as [a1 nr]. destruct (root a1 m0) as [a2 mr].
+  destruct (Nat.eqb mr nr); [cbn; lia|]. destruct (join a2 nr mr). cbn. lia.
+Qed.
+
+Lemma occupy_site_gcc adj s e : (gcc s <= gcc (occupy_site adj s e))%Z.
+Proof. unfold occupy_site. destruct (link_nbrs _ _ _ _ _) as [[a cs] nc]. cbn. lia. Qed.
+
+Lemma sample_with_gcc cs N p s : gcc (fst (sample_with cs N p s)) = gcc s /\ o_gcc (snd (sample_with cs N p s)) = gcc s.
+Proof. unfold sample_with. destruct (sizes_all _ _ _). split; reflexivity. Qed.
+
+Theorem do_bond_monotone nodes es0 perm ps s' os n : do_bond nodes es0 perm ps = (s', os, n) ->
+  StronglySorted Z.le (map snd (series os)).
+Proof.
+  unfold do_bond. intros E. rewrite series_gcc.
+  apply (percolate_mono occupy_bond (sample_with componentSize_bond (length nodes)) gcc o_gcc occupy_bond_gcc
+           (fun p s => proj1 (sample_with_gcc _ _ p s)) (fun p s => proj2 (sample_with_gcc _ _ p s)) _ _ _ _ _ _ E).
+Qed.
+
+Theorem do_site_monotone nodes adj perm ps s' os n : do_site nodes adj perm ps = (s', os, n) ->
+  StronglySorted Z.le (map snd (series os)).
+Proof.
+  unfold do_site. intros E. rewrite series_gcc.
+  apply (percolate_mono (occupy_site adj) (sample_with componentSize_site (length nodes)) gcc o_gcc (occupy_site_gcc adj)
+           (fun p s => proj1 (sample_with_gcc _ _ p s)) (fun p s => proj2 (sample_with_gcc _ _ p s)) _ _ _ _ _ _ E).
+Qed.
